@@ -1098,4 +1098,147 @@ theorem writeAll_rootIds_sub (w : World) (i : Nat) (f : Kind → List String →
     simp at hr0e; subst hr0e; simp at hre; subst hre
     exact rootIds_of_root hr0 j (write_ids_sub i f hf v0 j hjv)
 
+/-! ### the caller's writes insert atoms only -/
+
+theorem setKV_ids (k : String) (v : Val) : ∀ (ks : List String) (xs : List Val),
+    ∀ j ∈ mutIdsL (setKV k v ks xs).2, j ∈ mutIdsL xs ∨ j ∈ v.mutIds
+  | [], xs, j, h => by simp [setKV, mutIdsL] at h; exact Or.inr h
+  | _ :: _, [], j, h => by simp [setKV, mutIdsL] at h; exact Or.inr h
+  | a :: as, x :: xs, j, h => by
+    simp only [setKV] at h
+    split at h
+    · simp only [mutIdsL, List.mem_append] at h ⊢
+      rcases h with h | h
+      · exact Or.inr h
+      · exact Or.inl (Or.inr h)
+    · simp only [mutIdsL, List.mem_append] at h ⊢
+      rcases h with h | h
+      · exact Or.inl (Or.inl h)
+      · rcases setKV_ids k v as xs j h with h' | h'
+        · exact Or.inl (Or.inr h')
+        · exact Or.inr h'
+
+theorem delKV_ids (k : String) : ∀ (ks : List String) (xs : List Val),
+    ∀ j ∈ mutIdsL (delKV k ks xs).2, j ∈ mutIdsL xs
+  | [], xs, j, h => by simp [delKV, mutIdsL] at h
+  | _ :: _, [], j, h => by simp [delKV, mutIdsL] at h
+  | a :: as, x :: xs, j, h => by
+    simp only [delKV] at h
+    split at h
+    · simp only [mutIdsL, List.mem_append]; exact Or.inr h
+    · simp only [mutIdsL, List.mem_append] at h ⊢
+      rcases h with h | h
+      · exact Or.inl h
+      · exact Or.inr (delKV_ids k as xs j h)
+
+theorem act_addsNoIds (act : Act)
+    (h : match act with | .append v => v.mutIds = [] | .add v => v.mutIds = [] | .setkey _ v => v.mutIds = []) :
+    AddsNoIds act.apply := by
+  intro k ks xs ks' xs' he j hj
+  unfold Act.apply at he
+  split at he
+  · simp only [Option.some.injEq, Prod.mk.injEq] at he
+    obtain ⟨_, rfl⟩ := he
+    simp only at h
+    simpa [mutIdsL_append, mutIdsL, h] using hj
+  · simp only [Option.some.injEq, Prod.mk.injEq] at he
+    obtain ⟨_, rfl⟩ := he
+    simp only at h
+    split at hj
+    · exact hj
+    · simpa [mutIdsL_append, mutIdsL, h] using hj
+  · simp only [Option.some.injEq] at he
+    simp only at h
+    have := setKV_ids _ _ _ _ j (by rw [he]; exact hj)
+    simpa [h] using this
+  · simp at he
+
+theorem setItemF_ok (fname : String) (v : Val) (hv : v.mutIds = []) : AddsNoIds (setItemF fname v) := by
+  intro k ks xs ks' xs' he j hj
+  simp only [setItemF, Option.some.injEq] at he
+  have := setKV_ids fname v ks xs j (by rw [he]; exact hj)
+  simpa [hv] using this
+
+theorem instDelF_ok (fname : String) : AddsNoIds (instDelF fname) := by
+  intro k ks xs ks' xs' he j hj
+  unfold instDelF at he
+  split at he
+  · rename_i ks0 x xs0
+    simp only [Option.some.injEq, Prod.mk.injEq] at he
+    obtain ⟨_, rfl⟩ := he
+    simp only [mutIdsL, List.mem_append] at hj ⊢
+    rcases hj with h | h
+    · exact Or.inl h
+    · exact Or.inr (delKV_ids fname ks0 xs0 j h)
+  · simp at he
+
+theorem instSetF_ok (fname : String) (v : Val) (hv : v.mutIds = []) : AddsNoIds (instSetF fname v) := by
+  intro k ks xs ks' xs' he j hj
+  unfold instSetF at he
+  split at he
+  · rename_i ks0 x xs0
+    simp only [Option.some.injEq, Prod.mk.injEq] at he
+    obtain ⟨_, rfl⟩ := he
+    simp only [mutIdsL, List.mem_append] at hj ⊢
+    rcases hj with h | h
+    · exact Or.inl h
+    · have := setKV_ids fname v ks0 xs0 j h
+      exact Or.inr (by simpa [hv] using this)
+  · simp at he
+
+theorem setattrWrites_ok (d : Decl) (fname : String) (v : Val) (hv : v.mutIds = []) (root : Val) :
+    ∀ p ∈ setattrWrites d fname v root, p.1 ∈ root.mutIds ∧ AddsNoIds p.2 := by
+  intro p hp
+  unfold setattrWrites at hp
+  split at hp
+  · rename_i i c ks a aks avs xs0
+    have hi : i ∈ (Val.node i (Kind.inst c) ks (Val.node a Kind.dict aks avs :: xs0)).mutIds := by
+      simp [Val.mutIds, Kind.mutable]
+    have ha : a ∈ (Val.node i (Kind.inst c) ks (Val.node a Kind.dict aks avs :: xs0)).mutIds := by
+      simp [Val.mutIds, Kind.mutable, mutIdsL]
+    simp only at hp
+    split at hp
+    · split at hp
+      · simp only [List.mem_cons, List.not_mem_nil, or_false] at hp
+        rcases hp with rfl | rfl
+        · exact ⟨ha, setItemF_ok fname v hv⟩
+        · exact ⟨hi, instDelF_ok fname⟩
+      · simp only [List.mem_cons, List.not_mem_nil, or_false] at hp
+        subst hp
+        exact ⟨hi, instSetF_ok fname v hv⟩
+    · simp only [List.mem_cons, List.not_mem_nil, or_false] at hp
+      subst hp
+      exact ⟨ha, setItemF_ok fname v hv⟩
+  · simp at hp
+
+theorem schemaCopy_fr (v : Val) (s : St) :
+    Fr v.mutIds s (schemaCopy v s).2 (resIds (schemaCopy v s).1) := by
+  unfold schemaCopy
+  split
+  · rename_i j k ks a aks avs xs s0
+    refine ⟨by simp, ?_, ?_⟩
+    · intro i hi
+      simp only [List.mem_cons] at hi
+      rcases hi with h | h | h
+      · right; simp; omega
+      · right; simp; omega
+      · exact Or.inl h
+    · intro i hi
+      simp only [resIds] at hi
+      rcases mutIds_node_sub hi with h | h
+      · right; simp; omega
+      · simp only [mutIdsL, List.mem_append] at h
+        rcases h with h | h
+        · rcases mutIds_node_sub h with h | h
+          · right; simp; omega
+          · left
+            apply mutIdsL_sub_node
+            simp only [mutIdsL, List.mem_append]
+            exact Or.inl (mutIdsL_sub_node h)
+        · left
+          apply mutIdsL_sub_node
+          simp only [mutIdsL, List.mem_append]
+          exact Or.inr h
+  · exact Fr.refl (by simp [resIds])
+
 end Utv.C19
